@@ -386,6 +386,7 @@ func runC20(c *Ctx) {
 	}
 
 	ruleGoCapture(c)
+	ruleGoFreshCaptures(c)
 	ruleNoSharedMutableGlobals(c)
 	rulePanicUnderLock(c)
 	ruleCallbackReentrancy(c)
@@ -1017,4 +1018,98 @@ func ruleCallbackReentrancy(c *Ctx) {
 		}
 	}
 	R.Ob("exported Conn methods/scanned", "-", n >= 6 && nLockers >= 2 && cbUnderLock, fmt.Sprintf("%d exported methods, %d of them take the lock, callbacks under lock: %v", n, nLockers, cbUnderLock))
+}
+
+// ruleGoFreshCaptures (C20): a goroutine started by the package may capture a variable of the function that starts it
+// only if that function does not assign the variable again while the goroutine can be running. The case that matters
+// is the accept loop: the connection handed to the serving goroutine must be this iteration's own variable; one
+// variable shared by all iterations is overwritten by the next Accept before the goroutine has read it (a connection
+// is then never served or closed, another is served twice, and the accesses race).
+func ruleGoFreshCaptures(c *Ctx) {
+	R := c.R
+	R.Rule("R-go-fresh-captures", "E7 capture rule (cells)", "no variable captured by a go closure is assigned again by the starting function after the go statement (per-iteration variables of the accept loop are fresh cells)", 4)
+	n := 0
+	for _, f := range c.P.AllFuncs() {
+		if !inSmtp(f) {
+			continue
+		}
+		allInstrs(f, func(in ssa.Instruction) {
+			g, ok := in.(*ssa.Go)
+			if !ok {
+				return
+			}
+			n++
+			mc, ok := g.Call.Value.(*ssa.MakeClosure)
+			if !ok {
+				R.Ob(c.siteKey(in, "go statement captures"), c.P.InstrPos(in), true, "")
+				return
+			}
+			var bad []string
+			for _, b := range mc.Bindings {
+				a, isAlloc := b.(*ssa.Alloc)
+				if !isAlloc {
+					continue
+				}
+				for _, ref := range *a.Referrers() {
+					st, isSt := ref.(*ssa.Store)
+					if !isSt || st.Addr != a || st.Parent() != f {
+						continue
+					}
+					if storeAfter(in, st, a) {
+						bad = append(bad, fmt.Sprintf("%s (assigned again at %s)", a.Comment, c.P.InstrPos(st)))
+					}
+				}
+			}
+			sort.Strings(bad)
+			R.Ob(c.siteKey(in, "go statement captures only variables that are not reassigned afterwards"), c.P.InstrPos(in), len(bad) == 0,
+				fmt.Sprintf("the goroutine captures %v: the starting function stores to the same variable after the go statement (for a loop: the variable is declared outside the loop, so every iteration shares it) — the goroutine may see the next value instead of its own", bad))
+		})
+	}
+	R.Ob("package/go statements found", "-", n >= 4, fmt.Sprintf("%d go statements found", n))
+}
+
+// storeAfter: can st execute after goIn on the SAME cell, i.e. without the allocation a being executed in between?
+func storeAfter(goIn ssa.Instruction, st *ssa.Store, a *ssa.Alloc) bool {
+	scan := func(b *ssa.BasicBlock, from int) (found, cut bool) {
+		for i := from; i < len(b.Instrs); i++ {
+			if b.Instrs[i] == ssa.Instruction(a) {
+				return false, true
+			}
+			if b.Instrs[i] == ssa.Instruction(st) {
+				return true, false
+			}
+		}
+		return false, false
+	}
+	gb := goIn.Block()
+	start := 0
+	for i, x := range gb.Instrs {
+		if x == goIn {
+			start = i + 1
+		}
+	}
+	if found, cut := scan(gb, start); found {
+		return true
+	} else if cut {
+		return false
+	}
+	seen := map[*ssa.BasicBlock]bool{}
+	work := append([]*ssa.BasicBlock{}, gb.Succs...)
+	for len(work) > 0 {
+		b := work[len(work)-1]
+		work = work[:len(work)-1]
+		if seen[b] {
+			continue
+		}
+		seen[b] = true
+		found, cut := scan(b, 0)
+		if found {
+			return true
+		}
+		if cut {
+			continue
+		}
+		work = append(work, b.Succs...)
+	}
+	return false
 }
